@@ -466,6 +466,31 @@ def handwritten(col, rng):
                                   ('~~', ~~spec, OPS[op](t, c))]:
                     compare(col, '%s(M %s %d)' % (nm, op, c), call(G, t, sp),
                             ('pass', 'TARGET') if w else ('fail', 'match'), t, [], [], 'bare', None)
+    # the operand is the very object that is compared (a value that is not equal to itself, or equal to everything): the
+    # comparison decides, not the identity
+    nan = float('nan')
+
+    class Always:
+        def __eq__(self, other):
+            return True
+
+        def __ne__(self, other):
+            return True         # (perverse but legal: both == and != are true)
+
+        __hash__ = None
+    alw = Always()
+    for desc, target, spec, passes in (
+            ('M == nan on nan', nan, M == nan, nan == nan), ('M != nan on nan', nan, M != nan, nan != nan),
+            ('M >= nan on nan', nan, M >= nan, nan >= nan), ('M <= nan on nan', nan, M <= nan, nan <= nan),
+            ("M(T['x']) == nan on {'x': nan}", {'x': nan}, M(T['x']) == nan, nan == nan),
+            ("M(T['x']) != M(T['x'])", {'x': nan}, M(T['x']) != M(T['x']), nan != nan),
+            ('~(M == nan) on nan', nan, ~(M == nan), not (nan == nan)), ('Or(M == nan, M != nan)', nan, Or(M == nan, M != nan), True),
+            ('M != always-equal on itself', alw, M != alw, alw != alw), ('M == always-equal on itself', alw, M == alw, alw == alw)):
+        got = call(G, target, spec)
+        col.case(('same-object-operand', desc), True)
+        col.count('assignments_evaluated')
+        if got.ok != bool(passes) or (got.ok and got.value is not target) or (not got.ok and not isinstance(got.exc, MatchError)):
+            col.violation('C10/comparison-with-the-same-object-not-decided-by-python', '%s: %r, Python says %s' % (desc, got, bool(passes)), None)
     for t in [0, 1, '', 'x', None, [], [0]]:
         col.case(('truthy', repr(t)), True)
         compare(col, 'M', call(G, t, M), ('pass', 'TARGET') if t else ('fail', 'match'), t, [], [], 'bare', None)
